@@ -1176,7 +1176,7 @@ def find_function(docs, unit):
     for d in docs:
         for n in walk(d):
             if n.get('kind') in ('FunctionDecl', 'CXXMethodDecl', 'CXXConstructorDecl') and n.get('name') == want_name:
-                if want_sig and n.get('type', {}).get('qualType') != want_sig:
+                if want_sig and n.get('type', {}).get('qualType') not in [x.strip() for x in want_sig.split(' || ')]:
                     continue
                 if not any(c.get('kind') == 'CompoundStmt' for c in n.get('inner', []) or []):
                     continue
